@@ -273,11 +273,15 @@ fn c03_small_leaves() {
     assert!(expect_char(s, c) == (len > 0 && s[0] == c));
 }
 
-//@ unit c03_write_u32 q23=1 prop=C03,C04 unwind=13 mem=3 bound="every u32 x every width 1..=10: decimal digits, zero-padded to the width, never truncated, no panic"
-fn c03_write_u32() {
+//@ unit c03_write_u32 q23=1 prop=C03,C04 chunks=range:1:10 quick=all unwind=13 mem=3 timeout=900/3600 stubs=crate::util::try_format=>crate::verif_support::stub_try_format bound="every u32 with the number of decimal digits given by the parameter (1..=10: together every u32) x every width 1..=10: decimal digits, zero-padded to the width, never truncated, no panic"
+fn c03_write_u32(nd: u32) {
     let v: u32 = kani::any();
     let width: usize = kani::any();
     kani::assume(width >= 1 && width <= 10);
+    // value range of nd-digit numbers
+    let lo: u64 = if nd == 1 { 0 } else { 10u64.pow(nd - 1) };
+    let hi: u64 = 10u64.pow(nd) - 1;
+    kani::assume(v as u64 >= lo && v as u64 <= hi);
     let mut sink: Sink<16> = Sink::new();
     let r = write_u32(&mut sink, v, width);
     assert!(r.is_ok());
@@ -297,7 +301,7 @@ fn c03_write_u32() {
         i += 1;
     }
     assert!(acc == v as u64);
-    kani::cover!(n == 10);
-    kani::cover!(n < width);
-    kani::cover!(n > width);
+    assert!(n == nd as usize);
+    kani::cover!(n < width || nd == 10);
+    kani::cover!(n > width || nd == 1);
 }
